@@ -231,10 +231,16 @@ func (iloc *itemLoc) NumBytes(c *Collection) int {
 	loc := iloc.Loc()
 	if loc.isEmpty() {
 		i := iloc.Item()
-		if i == nil {
-			return 0
+		// A concurrent Flush may have persisted the item between the two reads
+		// above, and a reader may then have evicted it or reloaded it without
+		// its value: the cached item is only complete while there is still no
+		// location, and the location, once known, says it all.
+		if loc = iloc.Loc(); loc.isEmpty() {
+			if i == nil {
+				return 0
+			}
+			return i.NumBytes(c)
 		}
-		return i.NumBytes(c)
 	}
 	return int(loc.Length) - itemLocHdrLength
 }
